@@ -16,6 +16,9 @@ import (
 
 	"github.com/ory/keto/internal/check"
 	"github.com/ory/keto/internal/check/checkgroup"
+	"github.com/ory/keto/internal/driver"
+	"github.com/ory/keto/ketoapi"
+	rts "github.com/ory/keto/proto/ory/keto/relation_tuples/v1alpha2"
 	"github.com/ory/keto/internal/namespace"
 	"github.com/ory/keto/internal/namespace/ast"
 	"github.com/ory/keto/internal/relationtuple"
@@ -180,5 +183,46 @@ func TestVerifC15SelfReferentialPermissionOverflowsStack(t *testing.T) {
 			tail = tail[len(tail)-400:]
 		}
 		t.Fatalf("DEFECT: a check at max-depth 3 on a self-referential permission killed the process: %v\n%s", err, tail)
+	}
+}
+
+// C13 obligation (*Handler).BatchCheck/pre@(*RelationTuple).FromProto.subject-present:
+// a gRPC batch entry without a subject makes the handler panic (nil dereference).
+func TestVerifC13GRPCBatchCheckWithoutSubjectPanics(t *testing.T) {
+	reg := driver.NewSqliteTestRegistry(t, false)
+	h := check.NewHandler(reg)
+	defer func() {
+		if r := recover(); r != nil {
+			t.Fatalf("DEFECT: BatchCheck panicked on an entry without subject: %v", r)
+		}
+	}()
+	resp, err := h.BatchCheck(context.Background(), &rts.BatchCheckRequest{Tuples: []*rts.RelationTuple{{Namespace: "n", Object: "o", Relation: "r"}}})
+	if err == nil && (len(resp.Results) != 1 || resp.Results[0].Allowed) {
+		t.Fatalf("unexpected answer %+v", resp)
+	}
+}
+
+// C13 obligation (*Handler).doBatchCheck/pre@(*Engine).BatchCheck.no-nil-tuple:
+// POST /relation-tuples/batch/check with {"tuples":[null]} dereferences nil inside an errgroup
+// worker goroutine, outside any recovery: the server process exits. Observed in a child process.
+func TestVerifC13BatchCheckNullTupleKillsProcess(t *testing.T) {
+	if os.Getenv("VERIF_CHILD") == "2" {
+		reg := driver.NewSqliteTestRegistry(t, false)
+		res, err := reg.PermissionEngine().BatchCheck(context.Background(), []*ketoapi.RelationTuple{nil}, 0)
+		fmt.Printf("CHILD-RETURNED %v %v\n", len(res), err)
+		return
+	}
+	cmd := exec.Command(os.Args[0], "-test.run=^TestVerifC13BatchCheckNullTupleKillsProcess$", "-test.timeout=120s")
+	cmd.Env = append(os.Environ(), "VERIF_CHILD=2")
+	out, _ := cmd.CombinedOutput()
+	if !strings.Contains(string(out), "CHILD-RETURNED") {
+		tail := string(out)
+		if i := strings.Index(tail, "panic:"); i >= 0 {
+			tail = tail[i:]
+		}
+		if len(tail) > 300 {
+			tail = tail[:300]
+		}
+		t.Fatalf("DEFECT: a batch check with a null tuple killed the process:\n%s", tail)
 	}
 }
